@@ -188,8 +188,13 @@ pub struct Scratch {
 impl Scratch {
     pub fn new(rng: &mut Rng) -> Scratch {
         let n = rng.usize(0, 6);
+        let mut b = rng.bytes(256);
+        // the 32 bytes used as hello random are sometimes a value the RFCs give a meaning to
+        let special = crate::gen::random32(rng);
+        b[32..64].copy_from_slice(&special);
+        b[64..96].copy_from_slice(&crate::gen::random32(rng));
         Scratch {
-            b: rng.bytes(256),
+            b,
             ciphers: (0..n).map(|_| TlsCipherSuiteID(rng.u16())).collect(),
             comp: (0..rng.usize(0, 3)).map(|_| TlsCompressionID(rng.u8())).collect(),
         }
